@@ -171,6 +171,18 @@ def compare_query(sc, py, lean, observables):
             diffs.append(("spec", "source", f"py={py if py == 'nosrc' else 'ok'} model={mach if mach == 'nosrc' else 'ok'}"))
         return diffs
     api = sc["api"]
+    if py and isinstance(py, list) and py[0]["s"] == ["C"]:
+        if "segments" in observables:
+            return [("spec", "laziness", "user-visible calls happen when the iterator is created, before the first next(): "
+                     + json.dumps(py[0]["e"])[:300])]
+        py = [{"e": py[0]["e"] + py[1]["e"], "s": py[1]["s"]}] + py[2:] if len(py) > 1 else py
+    if not sc.get("traced", True):
+        mach = untrace(mach)
+        spec = dict(spec, top=[e for e in spec["top"] if e[0] != "T"])
+    if "segments" in observables and api in ("find", "find_matches"):
+        d = segments_diff(py, spec, api)
+        if d:
+            return [("spec", "segments", d)]
     fpy, drained = flat_py(py, api)
     fsp = flat_spec(spec, api)
     if api in ("get", "get_match"):
@@ -216,6 +228,56 @@ def compare_query(sc, py, lean, observables):
             if pm != mm:
                 diffs.append(("mach", "segments", first_diff(pm, mm)))
     return diffs
+
+
+def untrace(rec):
+    if rec == "nosrc":
+        return rec
+    return [{"e": [e for e in seg["e"] if e[0] != "T"], "s": seg["s"]} for seg in rec]
+
+
+def segments_diff(py, spec, api):
+    """call-by-call laziness and exhaustion at specification level: the i-th next() performs
+    exactly the part of the specification's stream between result i-1 and result i; after
+    StopIteration every call raises StopIteration again and does nothing else."""
+    want = []
+    cur = []
+    ended = None
+    for e in flat_spec(spec, api):
+        if e[0] in ("R", "V", "S", "X"):
+            want.append((cur, e))
+            cur = []
+            if e[0] in ("S", "X"):
+                ended = e
+                break
+        else:
+            cur.append(e)
+    for i, seg in enumerate(py):
+        ev = []
+        for e in seg["e"]:
+            if e[0] == "T" and e[4] is not None:
+                continue
+            if e[0] in ("P", "F"):
+                if e[-1] != 0:
+                    continue
+                e = e[:-1]
+            ev.append(e)
+        s = seg["s"]
+        if i < len(want):
+            wev, ws = want[i]
+            if ws[0] == "R" and s[0] == "R":
+                same_sig = [s[1]["p"], s[1]["n"], s[1]["d"]] == [ws[1]["p"], ws[1]["n"], ws[1]["d"]]
+            else:
+                same_sig = s == ws
+            if not same_sig:
+                return f"call {i}: python signals {json.dumps(s)[:200]}, specification {json.dumps(ws)[:200]}"
+            if ev != wev:
+                return f"call {i}: python performs {json.dumps(ev)[:300]} before answering, specification {json.dumps(wev)[:300]}"
+        elif ended is not None and ended[0] == "S":
+            if s != ["S"] or ev:
+                return f"call {i} after StopIteration: python signals {json.dumps(s)[:200]} with events {json.dumps(ev)[:200]}; an exhausted iterator must stay exhausted"
+        # after an exception the iterator's behaviour is compared with the machine model only
+    return None
 
 
 def prune(rec, observables):
